@@ -575,7 +575,7 @@ func keys(m map[string]bool) []string {
 }
 
 var prop = &hx.Prop{
-	ID: "C12", Gen: gen, Decode: decode, Exec: exec, Shrink: shrink,
+	ID: "C12", Gen: gen, Decode: decode, Focus: focus, Exec: exec, Shrink: shrink,
 	Components: map[string]string{
 		"runtime.VM, runtime.TempVM (PrepareParse, CreateContext, Add*/Get*), parser (class/function/interface registration at parse time), interpreter nodes (new, call, class_exists, function_exists, interface_exists)": "real (instrumented copy of /repo)",
 		"requests owning temporary VMs": "simulated parties: a driver task (sequential histories) or one task per temporary VM (concurrent mode)",
